@@ -24,6 +24,7 @@ type c07param struct {
 	in, name string
 	required bool
 	kind     string // "integer" | "pattern"
+	dflt     bool   // the schema carries a default (an absent required parameter is missing all the same)
 }
 
 func (p c07param) key() string { return p.in + ":" + p.name }
@@ -32,6 +33,9 @@ func (p c07param) json() gen.S {
 	s := gen.S{"type": "integer"}
 	if p.kind == "pattern" {
 		s = gen.S{"type": "string", "pattern": "^[a-z0-9]$"}
+	}
+	if p.dflt {
+		s["default"] = map[string]any{"integer": 5.0, "pattern": "x"}[p.kind]
 	}
 	out := gen.S{"name": p.name, "in": p.in, "schema": s}
 	if p.required || p.in == "path" {
@@ -137,7 +141,7 @@ func runC07Random(c *core.Ctx, idx *int) {
 			for _, in := range locs {
 				for _, name := range []string{"p", "q"} {
 					if r.Float64() < p {
-						out = append(out, c07param{in: in, name: name, required: r.Intn(2) == 0, kind: kind})
+						out = append(out, c07param{in: in, name: name, required: r.Intn(2) == 0, kind: kind, dflt: r.Intn(4) == 0})
 					}
 				}
 			}
@@ -171,6 +175,11 @@ func runC07Random(c *core.Ctx, idx *int) {
 			for _, in := range locs {
 				for _, name := range []string{"p", "q"} {
 					q.vals[in+":"+name] = []string{"5", "5", "5", "5", "5", "x", "x", "XX", "", ""}[r.Intn(10)]
+				}
+			}
+			for _, name := range []string{"p", "q"} {
+				if r.Intn(12) == 0 {
+					q.vals["query:"+name] = "EMPTY" // sent as name= (no value)
 				}
 			}
 			q.vals["path:id"] = []string{"5", "5", "5", "x", "XX"}[r.Intn(5)]
@@ -250,7 +259,9 @@ func runC07Random(c *core.Ctx, idx *int) {
 			hdr := http.Header{}
 			var pairs, cookies []string
 			for _, name := range []string{"p", "q"} {
-				if v := q.vals["query:"+name]; v != "" {
+				if v := q.vals["query:"+name]; v == "EMPTY" {
+					pairs = append(pairs, name+"=")
+				} else if v != "" {
 					pairs = append(pairs, name+"="+v)
 				}
 				if v := q.vals["header:"+name]; v != "" {
@@ -282,6 +293,7 @@ func runC07Random(c *core.Ctx, idx *int) {
 			optName := fmt.Sprintf("multi=%v,xbody=%v,xquery=%v,nofunc=%v,readbody=%v,stream=%d", q.opt.MultiError, q.opt.ExcludeRequestBody, q.opt.ExcludeRequestQueryParams, q.noFunc, q.readBod, q.opaque)
 			desc := fmt.Sprintf("%s\nrequest POST %s headers=%v body=%s auth=%v options=%s", desc0, target, hdr, bodyBytes, q.authOK, optName)
 			// ---- model ----
+			contested := false
 			want := map[string]bool{}
 			secOK, wantTrace := c07SecModelN(effSec, q.authOK, !q.noFunc)
 			if !secOK {
@@ -292,6 +304,15 @@ func runC07Random(c *core.Ctx, idx *int) {
 					continue
 				}
 				v := q.vals[key]
+				if v == "EMPTY" {
+					// an empty value is not an integer and allowEmptyValue is not set; for strings and for schemas with a default the reading differs: no verdict
+					if p.kind == "integer" && !p.dflt {
+						want["param:"+key] = true
+						continue
+					}
+					contested = true
+					continue
+				}
 				if v == "" {
 					if p.required {
 						want["param:"+key] = true
@@ -332,6 +353,10 @@ func runC07Random(c *core.Ctx, idx *int) {
 			var verr error
 			if pi := core.Guard(func() { verr = openapi3filter.ValidateRequest(bgCtx, in) }); pi != nil {
 				c.Violate(core.PanicFeatures(pi), c07Witness{Request: desc}, pi.Stack)
+				continue
+			}
+			if contested {
+				c.Cover("random_verdicts", "no verdict (empty value of a string / defaulted parameter)")
 				continue
 			}
 			c.Distinct(desc)
